@@ -62,8 +62,7 @@ ALLOWED = [
                      'Inference.ll_per_bin', 'Inference.ll_multinom_per_bin',
                      'Spectrum.__neg__', 'Spectrum.__pos__', 'Spectrum.__abs__', 'numpy.ma.exp(Spectrum)', 'numpy.ma.log(Spectrum)', 'numpy.ma.sqrt(Spectrum)',
                      'numpy.sqrt(Spectrum)', 'numpy.exp(Spectrum)', 'numpy.negative(Spectrum)', 'numpy.multiply(Spectrum, float)',
-                     'Spectrum.copy', 'Spectrum.flatten', 'Spectrum.astype', 'Spectrum(Spectrum)', 'Spectrum(data, mask, pop_ids)', 'copy.deepcopy(Spectrum)',
-                     'Numerics.intersect_masks(different masks)', 'Numerics.intersect_masks(Spectrum, ndarray)']),
+                     'Spectrum.copy', 'Spectrum.flatten', 'Spectrum.astype', 'Spectrum(Spectrum)']),
      'R.pop_ids', '*.pop_ids', R_POPIDS),
     (_fam(['Numerics.intersect_masks(different masks)', 'Numerics.intersect_masks(Spectrum, ndarray)']), 'R[*].pop_ids', '*.pop_ids', R_POPIDS),
     (_fam(['Spectrum(data, mask, pop_ids)']), 'R.pop_ids', 'pop_ids', R_POPIDS),
